@@ -3,17 +3,9 @@ package main
 import (
 	"fmt"
 	"math/rand"
-	"strings"
 
 	"verif/harness/internal/eng"
 )
-
-// naming convention of the C12/C03 generators: hook resources are named h*, manifest
-// resources never are, so that the two are told apart by key in the request log.
-func isHookKeyName(key string) bool {
-	i := strings.IndexByte(key, '/')
-	return i >= 0 && strings.HasPrefix(key[i+1:], "h")
-}
 
 var c12Events = map[string][2]string{
 	"install": {"pre-install", "post-install"}, "upgrade": {"pre-upgrade", "post-upgrade"},
